@@ -11,6 +11,7 @@ CONSTANTS
   EnumOps = {"eu", "es", "eul", "el", "efs", "efuc"}
   EnumBFs = {"eu"}
   Devs = {"CompositeIsFirst", "ArrayQualOnArrayType"}
+  CondCVs = {"x", "1", "0", "1.5", "0.0", "0x100000000"}
   Forms = {"bin", "cond", "un", "lit", "flt", "chr"}
   Emit = TRUE
 INVARIANTS Inv_Refines Inv_DevsExplain Inv_NoFatal Inv_UacSymmetric Inv_UacHoldsBoth Inv_PromoteIdempotent Inv_Emit
